@@ -42,8 +42,89 @@ const (
 	keyTags   = "mock-build-tags"
 )
 
+// hval is the abstract value of a template pipeline in the header.
+type hval struct {
+	kind string // "key": the template-data entry itself; "file": readFile of it; "pkgname"; "other"
+	key  string
+	text string
+}
+
+const (
+	actB   = `index .TemplateData "` + keyBoiler + `" | readFile`
+	actT   = `index .TemplateData "` + keyTags + `"`
+	actPkg = ".PkgName"
+)
+
+func evalPipe(p *parse.PipeNode, env map[string]hval) hval {
+	if p == nil || len(p.Cmds) == 0 {
+		return hval{kind: "other"}
+	}
+	var cur hval
+	for i, c := range p.Cmds {
+		var v hval
+		args := c.Args
+		extra := 0
+		if i > 0 {
+			extra = 1 // the previous value is the last argument
+		}
+		arg := func(n parse.Node) hval {
+			switch n := n.(type) {
+			case *parse.VariableNode:
+				if len(n.Ident) == 1 {
+					if x, ok := env[n.Ident[0]]; ok {
+						return x
+					}
+				}
+			case *parse.PipeNode:
+				return evalPipe(n, env)
+			case *parse.FieldNode:
+				if len(n.Ident) == 1 && n.Ident[0] == "PkgName" {
+					return hval{kind: "pkgname"}
+				}
+			}
+			return hval{kind: "other", text: n.String()}
+		}
+		switch {
+		case len(args) == 1 && extra == 0:
+			v = arg(args[0])
+		case len(args) >= 1:
+			id, isID := args[0].(*parse.IdentifierNode)
+			switch {
+			case isID && id.Ident == "index" && len(args) == 3 && extra == 0:
+				f, ok1 := args[1].(*parse.FieldNode)
+				k, ok2 := args[2].(*parse.StringNode)
+				if ok1 && ok2 && len(f.Ident) == 1 && f.Ident[0] == "TemplateData" {
+					v = hval{kind: "key", key: k.Text}
+				} else {
+					v = hval{kind: "other", text: c.String()}
+				}
+			case isID && id.Ident == "readFile" && len(args)+extra == 2:
+				in := cur
+				if extra == 0 {
+					in = arg(args[1])
+				}
+				if in.kind == "key" {
+					v = hval{kind: "file", key: in.key}
+				} else {
+					v = hval{kind: "other", text: c.String()}
+				}
+			default:
+				v = hval{kind: "other", text: c.String()}
+			}
+		default:
+			v = hval{kind: "other", text: c.String()}
+		}
+		cur = v
+	}
+	if cur.kind == "other" && cur.text == "" {
+		cur.text = p.String()
+	}
+	return cur
+}
+
 // headerPaths returns, for each of the four settings of (boilerplate-file set?, mock-build-tags set?), the
 // pieces the template writes up to and including the text piece that contains the package clause.
+// Variables bound to template-data entries (`{{ $x := index .TemplateData "k" }}`) are followed.
 func headerPaths(text string) (map[[2]bool][]hpiece, error) {
 	t := parse.New("t")
 	t.Mode = parse.SkipFuncCheck
@@ -52,10 +133,12 @@ func headerPaths(text string) (map[[2]bool][]hpiece, error) {
 	if err != nil {
 		return nil, err
 	}
+	pkgRe := regexp.MustCompile(`(^|\n)package `)
 	out := map[[2]bool][]hpiece{}
 	for _, b := range []bool{false, true} {
 		for _, tg := range []bool{false, true} {
 			var ps []hpiece
+			env := map[string]hval{}
 			done := false
 			var walk func(nodes []parse.Node) error
 			walk = func(nodes []parse.Node) error {
@@ -67,25 +150,39 @@ func headerPaths(text string) (map[[2]bool][]hpiece, error) {
 					case *parse.TextNode:
 						s := string(n.Text)
 						ps = append(ps, hpiece{text: s})
-						if regexp.MustCompile(`(^|\n)package `).MatchString(s) {
+						if pkgRe.MatchString(s) {
 							done = true
 						}
 					case *parse.ActionNode:
+						v := evalPipe(n.Pipe, env)
 						if len(n.Pipe.Decl) > 0 {
-							return fmt.Errorf("variable declaration %s in the header", n.String())
+							if len(n.Pipe.Decl) != 1 || n.Pipe.IsAssign || v.kind == "other" {
+								return fmt.Errorf("variable statement %s in the header is not a binding of a template-data entry", n.String())
+							}
+							env[n.Pipe.Decl[0].Ident[0]] = v
+							continue
 						}
-						ps = append(ps, hpiece{action: n.Pipe.String()})
+						switch {
+						case v.kind == "file" && v.key == keyBoiler:
+							ps = append(ps, hpiece{action: actB})
+						case v.kind == "key" && v.key == keyTags:
+							ps = append(ps, hpiece{action: actT})
+						case v.kind == "pkgname":
+							ps = append(ps, hpiece{action: actPkg})
+						default:
+							ps = append(ps, hpiece{action: n.Pipe.String()})
+						}
 					case *parse.CommentNode:
 					case *parse.IfNode:
-						cond := n.Pipe.String()
+						v := evalPipe(n.Pipe, env)
 						var set bool
-						switch cond {
-						case `(index .TemplateData "` + keyBoiler + `")`, `index .TemplateData "` + keyBoiler + `"`:
+						switch {
+						case v.kind == "key" && v.key == keyBoiler:
 							set = b
-						case `(index .TemplateData "` + keyTags + `")`, `index .TemplateData "` + keyTags + `"`:
+						case v.kind == "key" && v.key == keyTags:
 							set = tg
 						default:
-							return fmt.Errorf("conditional on %s in the header is not one of the two template-data switches", cond)
+							return fmt.Errorf("conditional on %s in the header is not one of the two template-data switches", n.Pipe.String())
 						}
 						if set {
 							if err := walk(n.List.Nodes); err != nil {
@@ -148,18 +245,32 @@ func headerObligations(tmpl string, bset, tset bool, ps []hpiece) []hobl {
 		return b.String()
 	}
 	shown := truncateStr(strings.ReplaceAll(render(), "\n", "\\n"), 400)
-	// 1. marker: the first line is literal text and matches the convention
-	first := ""
-	if len(ps) > 0 && ps[0].action == "" {
-		first = ps[0].text
+	// 1. marker: some line before the package clause is literal text from a guaranteed line start to a
+	//    literal line break and matches the convention, whatever B and T are
+	markerOK, seen := false, []string{}
+	pkgSeen := false
+	for i, p := range ps {
+		if p.action != "" || pkgSeen {
+			continue
+		}
+		segs := strings.Split(p.text, "\n")
+		for j, seg := range segs {
+			if strings.HasPrefix(seg, "package ") && (j > 0 || i == 0) {
+				pkgSeen = true
+				break
+			}
+			startsLine := j > 0 || i == 0
+			endsLine := j < len(segs)-1
+			if startsLine && endsLine {
+				if generatedRe.MatchString(seg) {
+					markerOK = true
+				}
+			} else if strings.Contains(seg, "Code generated") {
+				seen = append(seen, fmt.Sprintf("%q is not a whole line for every boilerplate (it is glued to a value of the template)", seg))
+			}
+		}
 	}
-	line1 := first
-	if i := strings.Index(first, "\n"); i >= 0 {
-		line1 = first[:i]
-	} else if len(ps) > 1 {
-		line1 = "" // the first line runs into a symbolic value
-	}
-	add("marker", "the first line of the file is literal template text matching `^// Code generated .* DO NOT EDIT\\.$`", generatedRe.MatchString(line1), "first line: "+fmt.Sprintf("%q", line1))
+	add("marker", "a line before the package clause is literal template text matching `^// Code generated .* DO NOT EDIT\\.$`, from a line start to a line break whatever the boilerplate and the expression are", markerOK, "no such line; "+strings.Join(seen, "; "))
 	// 2. nothing but comments and blank lines before the package clause (B is comment-only by the
 	//    property's quantifier; T sits on a //go:build line, checked below)
 	okComments, why := true, ""
@@ -413,9 +524,6 @@ func headerSample(cr *checkResult) {
 					problems = append(problems, "the file does not parse: "+perr.Error())
 				} else if !ast.IsGenerated(f) {
 					problems = append(problems, "go/ast.IsGenerated reports false: no `// Code generated ... DO NOT EDIT.` line before the package clause")
-				}
-				if !strings.HasPrefix(head, "// Code generated") {
-					problems = append(problems, "the marker is not the first line of the file")
 				}
 				if hc.boiler != "" && !strings.Contains(head, strings.TrimRight(hc.boiler, "\n")+"\n") {
 					problems = append(problems, "the boilerplate does not appear verbatim before the package clause")
